@@ -34,62 +34,81 @@ def signature(tokens, ref, got):
     kinds = [t for t, _ in tokens]
     if 'GETPROP' in kinds or 'SETPROP' in kinds or any(x == 'get' or x == 'set' for _, x in tokens):
         return 'get/set'
+    for i, k in enumerate(kinds):
+        if k == 'FUNCTION' and i + 1 < len(kinds) and kinds[i + 1] == 'LPAREN' and (i == 0 or kinds[i - 1] in ('SEMI', 'LBRACE', 'RBRACE', 'RPAREN', 'ELSE', 'DO', 'COLON')):
+            return 'statement starting with an anonymous function'
     return 'other'
 
 
+_M = {}
+
+
+def _init(src_root):
+    from .. import scratch
+    scratch.use_existing(src_root)
+    _M['es5'] = importlib.import_module('calmjs.parse.parsers.es5')
+    _M['ref'] = importlib.import_module('spec.es5_reference')
+
+
+def _work(chunk):
+    out = []
+    es5, ref = _M['es5'], _M['ref']
+    for kind, toks in chunk:
+        want = ref.accepts(toks)
+        got = parser_accepts(es5, toks)
+        if want != got:
+            out.append((kind, toks, want, got))
+    return len(chunk), out
+
+
 def bounded(run, tier, g, es5):
-    try:
-        ref = importlib.import_module('spec.es5_reference')
-    except ImportError:
-        ref = None
+    import multiprocessing
+    from .. import scratch
+    ref = importlib.import_module('spec.es5_reference')
     corpus = gen.corpus(g, depth2=True)
-    n = 0
     shown = {}
 
-    def report(kind, tokens, want, got, label=''):
+    def report(kind, tokens, want, got):
         src = render(tokens)
         sig = signature(tokens, want, got)
-        key = '%s | %s | %s' % (kind, 'reference accepts, parser rejects' if want else 'parser accepts, reference rejects', sig)
+        key = '%s | %s' % ('reference accepts, parser rejects' if want else 'parser accepts, reference rejects', sig)
         cnt = shown.get(key, 0)
         shown[key] = cnt + 1
-        if cnt >= 4:
+        if cnt >= 3:
             return
-        why = '%s: %r -- the ES5 grammar %s it, the parser %s it %s' % (kind, src, 'derives' if want else 'does not derive',
-                                                                       'accepts' if got else 'rejects', label)
+        why = '%s: %r -- the ES5 grammar %s it, the parser %s it' % (kind, src, 'derives' if want else 'does not derive',
+                                                                    'accepts' if got else 'rejects')
         run.failed('rt.grammar', 'E4/bounded', '%s | %s' % (key, src), dict(source=src, problem=why), observed=why,
                    required='accepted iff derivable from the ES5 grammar', replayed=True)
-    # (1) every sentence generated from the extracted grammar is accepted, unless the reference says it is not ES5
-    for label, toks in corpus:
-        n += 1
-        got = parser_accepts(es5, toks)
-        want = ref.accepts(toks) if ref else True
-        if got != want:
-            report('generated sentence', toks, want, got)
-    if ref is not None:
-        # (2) single-token mutations of the sentences
-        rnd = random.Random(run.seed)
-        step = 6 if tier == 'quick' else 1
-        for label, toks in corpus[::step]:
-            for i in range(len(toks)):
-                for m in (MUTATE if tier == 'thorough' else rnd.sample(MUTATE, 3)):
-                    for mut in (toks[:i] + [m] + toks[i + 1:], toks[:i] + toks[i + 1:], toks[:i] + [m] + toks[i:]):
-                        n += 1
-                        want = ref.accepts(mut)
-                        got = parser_accepts(es5, mut)
-                        if got != want:
-                            report('mutation', mut, want, got)
-        # (3) all short token strings
-        L = 4 if tier == 'quick' else 5
-        alpha = ALPHABET if tier == 'thorough' else ALPHABET[:16]
-        for k in range(1, L + 1):
-            for t in itertools.product(alpha, repeat=k):
-                toks = list(t)
-                n += 1
-                want = ref.accepts(toks)
-                got = parser_accepts(es5, toks)
-                if got != want:
-                    report('short string', toks, want, got)
-    run.bounded_check('rt.grammar', ('%d generated sentences' % len(corpus)) + (
-        '; their single-token substitutions/deletions/insertions; all token strings of length <= %d over %d token kinds; oracle = '
-        'spec/es5_reference.py' % (4 if tier == 'quick' else 5, 16 if tier == 'quick' else len(ALPHABET)) if ref else
-        ' (reference recogniser not available: acceptance only)'), n)
+    work = [('generated sentence', toks) for _, toks in corpus]
+    rnd = random.Random(run.seed)
+    step = 8 if tier == 'quick' else 1
+    for label, toks in corpus[::step]:
+        for i in range(len(toks)):
+            for m in (MUTATE if tier == 'thorough' else rnd.sample(MUTATE, 2)):
+                work.append(('mutation', toks[:i] + [m] + toks[i + 1:]))
+                work.append(('mutation', toks[:i] + [m] + toks[i:]))
+            work.append(('mutation', toks[:i] + toks[i + 1:]))
+    L = 3 if tier == 'quick' else 5
+    alpha = ALPHABET if tier == 'thorough' else ALPHABET[:18]
+    for k in range(1, L + 1):
+        for t in itertools.product(alpha, repeat=k):
+            work.append(('short string', list(t)))
+    if tier == 'quick':
+        for t in itertools.product(ALPHABET[:9], repeat=4):
+            work.append(('short string', list(t)))
+    es5.Parser()
+    chunks = [work[i:i + 500] for i in range(0, len(work), 500)]
+    n = 0
+    fails = []
+    ctx = multiprocessing.get_context('fork')
+    with ctx.Pool(16, initializer=_init, initargs=(scratch.scratch_src(),)) as pool:
+        for cnt, out in pool.imap_unordered(_work, chunks):
+            n += cnt
+            fails.extend(out)
+    fails.sort(key=lambda x: (len(x[1]), render(x[1])))
+    for kind, toks, want, got in fails:
+        report(kind, toks, want, got)
+    run.bounded_check('rt.grammar', '%d generated sentences; single-token substitutions/insertions/deletions of every %s sentence; all token '
+                      'strings of length <= %d over %d token kinds%s; oracle = spec/es5_reference.py (independent ES5 recogniser)' % (
+                          len(corpus), 'eighth' if tier == 'quick' else '', L, len(alpha), ' and length 4 over 9' if tier == 'quick' else ''), n)
